@@ -5,8 +5,9 @@
    Rn (log and exp are the identity).  SO3 / SE3 / SE_2(3) / SGal(3): tested on every run (100-digit and
    double), including q / -q pairs and elements with w < 0 and a tiny vector part (the defect repaired by
    fix edde36d); not proved. *)
-From Coq Require Import Reals List Lra.
-From Manif Require Import Scalar Mat Group RInst Generic LieSpec SO2 SE2 SO3 Rn SE2Proofs SO3Proofs RnProofs Log_SE2 Approx_Inst SE3 Log_SO3 Log_SE3.
+From Coq Require Import Reals List Lra Lia.
+From Manif Require Import Scalar Mat Group RInst Generic LieSpec SO2 SE2 SO3 Rn SE2Proofs SO3Proofs RnProofs Log_SE2 Approx_Inst SE3 Log_SO3 Log_SE3 LogExp_SO3 LogExp_SE3 SE23 LogExp_SE23
+  Bundle BundleLaws BundleInst InterpProofs InterpInst BundleExpLog.
 Import ListNotations.
 Local Open Scope R_scope.
 
@@ -57,3 +58,52 @@ Print Assumptions C03_SE3_exp_log_generic.
 
 Example C03_nonvacuous : se2_valid [1000000; -3; -3/5; 4/5] /\ - PI < 1 <= PI.
 Proof. split; [exists 1000000, (-3), (-3/5), (4/5); split; [reflexivity|lra] | pose proof PI2_1; pose proof PI_RGT_0; lra]. Qed.
+
+(* log(exp t) = t for every tangent with rotation angle below pi: SO3 and SE3, generic branches of exp and log *)
+Theorem C03_SO3_log_exp eps x y z : 0 < eps -> eps < x * x + y * y + z * z -> sqrt (x * x + y * y + z * z) < PI ->
+  eps < sin (sqrt (x * x + y * y + z * z) / 2) * sin (sqrt (x * x + y * y + z * z) / 2) ->
+  so3_log RS eps (so3_exp RS eps [x; y; z]) = [x; y; z].
+Proof. intros H. exact (so3_log_exp_generic eps H x y z). Qed.
+Theorem C03_SE3_log_exp eps a b c x y z : 0 < eps -> eps < x * x + y * y + z * z -> sqrt (x * x + y * y + z * z) < PI ->
+  eps < sin (sqrt (x * x + y * y + z * z) / 2) * sin (sqrt (x * x + y * y + z * z) / 2) ->
+  se3_log RS eps (se3_exp RS eps [a; b; c; x; y; z]) = [a; b; c; x; y; z].
+Proof. intros H. exact (se3_log_exp_generic eps H a b c x y z). Qed.
+Theorem C03_SE23_log_exp eps a b c x y z d e f : 0 < eps -> eps < x * x + y * y + z * z -> sqrt (x * x + y * y + z * z) < PI ->
+  eps < sin (sqrt (x * x + y * y + z * z) / 2) * sin (sqrt (x * x + y * y + z * z) / 2) ->
+  se23_log RS eps (se23_exp RS eps [a; b; c; x; y; z; d; e; f]) = [a; b; c; x; y; z; d; e; f].
+Proof. intros H. exact (se23_log_exp_generic eps H a b c x y z d e f). Qed.
+Print Assumptions C03_SE3_log_exp.
+
+(* Bundles: exp(log X) = X lifts from the element groups to a Bundle of ANY layout of them (BundleLaws.v: the Bundle's
+   exp / log are the element operations on the views at the offset tables).  Packs: SO2, SE2, R3 (BundleExpLog.v). *)
+Theorem C03_Bundle_exp_log (LP : list PackedEL) (dP : PackedEL) X :
+  bvalid RS (map q_G LP) (fun i X => gc_valid (el_core _ (q_el (nth i LP dP))) X) X ->
+  g_exp (Bundle (map q_G LP)) (g_log (Bundle (map q_G LP)) X) = X.
+Proof. exact (bundle_exp_log_of_cores LP dP X). Qed.
+Print Assumptions C03_Bundle_exp_log.
+Example C03_Bundle_nonvacuous eps (H : 0 < eps) (H1 : eps <= 1) :
+  bvalid RS (map q_G [SE2_packEL eps H H1; R3_packEL; SO2_packEL eps H H1])
+    (fun i X => gc_valid (el_core _ (q_el (nth i [SE2_packEL eps H H1; R3_packEL; SO2_packEL eps H H1] R3_packEL))) X)
+    ([7; -2; 3/5; 4/5] ++ [1; 2; 3] ++ [-3/5; 4/5]).
+Proof.
+  exists [[7; -2; 3/5; 4/5]; [1; 2; 3]; [-3/5; 4/5]]. split; [|reflexivity]. split; [reflexivity|].
+  intros i Hi. cbn [length map] in Hi. destruct i as [|[|[|i]]]; [| | |exfalso; lia]; cbn.
+  - exists 7, (-2), (3/5), (4/5); split; [reflexivity|lra].
+  - reflexivity.
+  - exists (-3/5), (4/5); split; [reflexivity|lra].
+Qed.
+
+(* non-vacuity of the log(exp t) = t hypotheses: the quarter turn about the x axis *)
+Example C03_log_exp_nonvacuous :
+  let x := PI / 2 in
+  1 / 100 < x * x + 0 * 0 + 0 * 0 /\ sqrt (x * x + 0 * 0 + 0 * 0) < PI /\
+  1 / 100 < sin (sqrt (x * x + 0 * 0 + 0 * 0) / 2) * sin (sqrt (x * x + 0 * 0 + 0 * 0) / 2).
+Proof.
+  cbv zeta. pose proof PI2_1 as H1. pose proof PI_RGT_0 as H0.
+  assert (E : sqrt (PI / 2 * (PI / 2) + 0 * 0 + 0 * 0) = PI / 2).
+  { replace (PI / 2 * (PI / 2) + 0 * 0 + 0 * 0) with ((PI / 2)²) by (unfold Rsqr; ring). apply sqrt_Rsqr. lra. }
+  rewrite E. split; [nra|]. split; [lra|].
+  replace (PI / 2 / 2) with (PI / 4) by field. rewrite sin_PI4.
+  replace (1 / sqrt 2 * (1 / sqrt 2)) with (1 / (sqrt 2 * sqrt 2)) by (field; apply Rgt_not_eq; apply sqrt_lt_R0; lra).
+  rewrite sqrt_sqrt by lra. lra.
+Qed.
